@@ -42,7 +42,7 @@ def shards(tier):
 def floors(tier):
     return {"compared": 20000 if tier == "quick" else 200000,
             "valid": 3000, "invalid": 3000,
-            "keyword_cells_both_outcomes": 100,   # of 107 (draft, keyword) cells
+            "keyword_cells_both_outcomes": 80,   # of 107 (draft, keyword) cells
             "distinct_nontrivial": 10000,
             "calibration_cases": 2000, "consulting_pairs_enumerated": 500, "shape_pairs_enumerated": 2000,
             "pattern_tables_enumerated": 3000, "compared_neutral_configurations": 50000}
